@@ -377,3 +377,38 @@ def rule_calls_bind(ctx, r, module_names):
                             "whenever this line is reached, so the command fails instead of doing what the property describes", f"{f.module.relpath}:{call.lineno}")
                 r.instances[-1]["from_witness"] = True
     r.ok(f"src/{module_names[0].replace('.', '/')}.py::calls-bind", f"{n} resolved calls of package functions in {', '.join(module_names)} bind to their callee's signature", f"src/{module_names[0].replace('.', '/')}.py:1")
+
+
+def rule_option_declaration(ctx, r, func_key, flag, want, why):
+    """A click option is declared with the given keyword values (e.g. multiple=True, default="workflow.py:gwf"); absent keywords count as click's own defaults
+    given in `want` as (value, click_default) pairs.  A fact about the declaration: never overridden by an evaluation of the command body."""
+    import ast
+    idx = ctx.index
+    fn = idx.func(func_key)
+    opt = None
+    for d in fn.node.decorator_list:
+        if isinstance(d, ast.Call) and idx.canon(d.func, fn.module) == "click.option":
+            names = [a.value for a in d.args if isinstance(a, ast.Constant) and isinstance(a.value, str)]
+            if flag in names:
+                opt = d
+    con = f"{fn.module.relpath}::{fn.qual}::{flag}"
+    if opt is None:
+        r.violation(con, f"option {flag} not found on `{fn.name}`: {why}", fn.where)
+        r.instances[-1]["from_witness"] = True
+        return
+    kw = {k.arg: k.value for k in opt.keywords}
+    bad = []
+    for name, (value, click_default) in want.items():
+        if name in kw:
+            try:
+                got = ctx.ev.eval(kw[name], fn.module)
+            except Exception:
+                continue      # not a constant: cannot be judged here
+        else:
+            got = click_default
+        if got != value:
+            bad.append(f"{name}={got!r} (expected {value!r})")
+    ok = r.check(not bad, con, f"{flag} declared with " + ", ".join(f"{k}={v[0]!r}" for k, v in want.items()),
+                 f"{flag} is declared with {', '.join(bad)}: {why}", f"{fn.module.relpath}:{opt.lineno}")
+    if not ok:
+        r.instances[-1]["from_witness"] = True
